@@ -85,6 +85,38 @@ def step (s : St) (ws : List String) : St × String :=
         (s.setVar k { x with val := v }, "ok")
       | none => (s, exc .unknown_handle)
     | _, _ => (s, "bad-op")
+  -- the ARRAY forms `y.add_derivative_dependence(x, dy_dx, n, stride)` / `append_…` (Active, ActiveReference,
+  -- ActiveConstReference): the linear statement d[k] = Σ mⱼ·d[iⱼ] over the non-zero multipliers; the form and the
+  -- multiplier stride do not enter the meaning.  `add` = first term added, the others appended; `append` tests the
+  -- left-hand side once (a failed call changes nothing)
+  | c :: _form :: k :: _stride :: ":" :: rest =>
+    if c == "adepv" || c == "apdepv" then
+      let rec pairs : List String → Option (List (Nat × Int))
+        | [] => some []
+        | i :: m :: tl => match i.toNat?.bind s.var?, m.toInt?, pairs tl with
+          | some y, some m, some ps => some ((y.idx, m) :: ps)
+          | _, _, _ => none
+        | [_] => none
+      match k.toNat?.bind s.var?, pairs rest with
+      | some x, some ps =>
+        if c == "adepv" then
+          let s1 := match ps with
+            | [] => s.addDependence x.idx x.idx 0
+            | (i, m) :: _ => s.addDependence x.idx i m
+          let s2 := (ps.drop 1).foldl (fun acc p => match acc.appendDependence x.idx p.1 p.2 with
+            | .ok a => a
+            | .error _ => acc) s1
+          (s2, "ok")
+        else
+          match s.appendDependence x.idx x.idx 0 with
+          | .error e => (s, exc e)
+          | .ok _ =>
+            let s2 := ps.foldl (fun acc p => match acc.appendDependence x.idx p.1 p.2 with
+              | .ok a => a
+              | .error _ => acc) s
+            (s2, "ok")
+      | _, _ => (s, exc .unknown_handle)
+    else (s, "bad-op")
   | "asg" :: k :: rest =>
     match k.toNat?, parseExpr rest with
     | some k, some (e, []) => if e.isActive then doAssign s k e else (s, "bad-op")
